@@ -22,6 +22,7 @@ use core::str::Utf8Error;
 use multiboot2_common::{MaybeDynSized, Tag};
 
 const RSDPV1_LENGTH: usize = 20;
+const RSDPV2_LENGTH: usize = 36;
 
 /// This tag contains a copy of RSDP as defined per ACPI 1.0 specification.
 #[derive(Copy, Clone, Debug, PartialEq, Eq, PartialOrd, Ord, Hash)]
@@ -164,9 +165,13 @@ impl RsdpV2Tag {
     /// Validation of the RSDPv2 extended checksum
     #[must_use]
     pub fn checksum_is_valid(&self) -> bool {
-        let bytes = unsafe {
-            slice::from_raw_parts(self as *const _ as *const u8, self.length as usize + 8)
-        };
+        // The RSDP's own length field must not reach beyond the RSDP bytes
+        // that this tag holds.
+        let length = self.length as usize;
+        if length > RSDPV2_LENGTH {
+            return false;
+        }
+        let bytes = unsafe { slice::from_raw_parts(self as *const _ as *const u8, length + 8) };
         bytes[8..]
             .iter()
             .fold(0u8, |acc, val| acc.wrapping_add(*val))
